@@ -196,6 +196,8 @@ int write_python_table_native(std::ostream &out) {
         for (int di = 0; di < num_derivations; ++di) {
           TypeIndex basetype = interrogate_type_get_derivation(thetype, di);
           if (interrogate_type_is_global(basetype) &&
+              interrogate_type_has_module_name(basetype) &&
+              module_name == interrogate_type_module_name(basetype) &&
               interrogate_type_has_library_name(basetype)) {
             string baselib = interrogate_type_library_name(basetype);
             if (baselib != library_name) {
@@ -207,6 +209,8 @@ int write_python_table_native(std::ostream &out) {
         if (interrogate_type_is_typedef(thetype)) {
           TypeIndex wrapped = interrogate_type_wrapped_type(thetype);
           if (interrogate_type_is_global(wrapped) &&
+              interrogate_type_has_module_name(wrapped) &&
+              module_name == interrogate_type_module_name(wrapped) &&
               interrogate_type_has_library_name(wrapped)) {
             string wrappedlib = interrogate_type_library_name(wrapped);
             if (wrappedlib != library_name) {
